@@ -464,7 +464,7 @@ def judge(env: Env, i: Optional[int], op: str, fault: F.Fault, res: F.ChildResul
         if bad:
             raise Violation(f"{where}: temp file(s) {bad} carry a name that snapshot/log discovery patterns "
                             f"({'/'.join('*' + s for s in env.suffixes)}) accept{tail}", case, "temp-name-looks-real")
-        labels.append("leftover-after-kill")
+        labels.append("leftover-present")
     # 7. documented retry of transient sharing/permission errors on replace
     if fault.kind == "transient" and op == "replace" and res.outcome != "ok":
         raise Violation(f"{where}: {fault.times} transient {fault.err} failure(s) of os.replace were not retried to "
@@ -526,7 +526,13 @@ def first_temp_index(steps) -> int:
 def enumerate_case(case: dict, rec, on_violation: Optional[Callable[[Violation], None]], counter: List[int],
                    shard: int = 0, nshards: int = 1, fork_errors: bool = True) -> None:
     """Baseline + every (step x fault) of one case. With on_violation=None the first Violation propagates."""
-    env = prepare(case)
+    try:
+        env = prepare(case)
+    except Violation as v:  # the fault-free reference write itself is broken
+        if on_violation is None:
+            raise
+        on_violation(v)
+        return
     try:
         try:
             base = baseline(env)
@@ -659,7 +665,8 @@ def _strategies():
 
     def spec_for(t):
         gen = st.fixed_dictionaries({"seed": st.integers(0, 1 << 16),
-                                     "size": st.one_of(st.sampled_from([0, 1, 2, 4096, 65537, BIG]), st.integers(0, 3000)),
+                                     "size": st.one_of(st.just(BIG), st.sampled_from([0, 1, 2, 4096, 65537, BIG + 1]),
+                                                       st.integers(1, 3000), st.integers(1, 3000)),
                                      "style": st.sampled_from(["ascii", "unicode", "crlf"] + (["binary"] if t == "bytes" else []))})
         if t == "bytes":
             lit = st.binary(max_size=64).map(lambda b: {"lit": b.hex()})
